@@ -107,6 +107,9 @@ func TestC09_Insertion(t *testing.T) {
 	col := stats.New("C09", "TestC09_Insertion")
 	defer col.Flush()
 	c09Required(col)
+	if _, err := c09Server("insertion", 3, 2); err != nil {
+		t.Fatalf("harness: %v", err)
+	}
 	RunRapidWith(t, col, Check[c09Case]{Prop: "C09", Test: "TestC09_Insertion", Gen: genC09("insertion"), Run: runC09})
 }
 
@@ -114,6 +117,9 @@ func TestC09_Deletion(t *testing.T) {
 	col := stats.New("C09", "TestC09_Deletion")
 	defer col.Flush()
 	c09Required(col)
+	if _, err := c09Server("deletion", 3, 2); err != nil {
+		t.Fatalf("harness: %v", err)
+	}
 	RunRapidWith(t, col, Check[c09Case]{Prop: "C09", Test: "TestC09_Deletion", Gen: genC09("deletion"), Run: runC09})
 }
 
